@@ -723,12 +723,81 @@ def variable_position_forms(rng):
     return out
 
 
+def namespace_collision_forms(rng):
+    """(name, label or None, [definitions]) -- fragment names coinciding with operation,
+    variable, alias, field and type names (separate namespaces): valid documents and
+    violators of the variable / fragment rules that only a merged namespace would miss"""
+    out = []
+
+    def anc(alias, extra=None, sels=None):
+        a = _anchor_field(rng, None)
+        a["alias"] = alias
+        names = {x[0] for x in (extra or [])}
+        a["args"] = [x for x in a["args"] if x[0] not in names] + (extra or [])
+        if sels is not None:
+            a["sels"] = sels
+        return a
+
+    def op(name, vars_, sels, kind="query"):
+        return {"kind": "op", "op": kind, "name": name, "vars": [{"name": n, "type": t, "default": None} for n, t in vars_],
+                "dirs": [], "sels": sels}
+
+    def frag(name, on, sels):
+        return {"kind": "frag", "name": name, "on": on, "dirs": [], "sels": sels}
+
+    def sp(n):
+        return {"k": "spread", "name": n, "dirs": []}
+
+    uses_a = frag("Foo", "Query", [anc("zf", [["s", ["var", "a"]]])])
+    # unused variable in an operation named like a fragment it does not spread
+    out.append(("unused-var-op-named-like-fragment", 17,
+                [op("Foo", [("a", "String")], [anc("zo")]), op("Bar", [("a", "String")], [sp("Foo")]), copy.deepcopy(uses_a)]))
+    out.append(("unused-var-op-named-like-fragment-2", 17,
+                [copy.deepcopy(uses_a), op("Bar", [("a", "String")], [sp("Foo")]), op("Foo", [("a", "String")], [anc("zo")])]))
+    # valid: the operation named like the fragment declares nothing; the spreading one declares the variable
+    out.append(("valid-op-named-like-fragment", None,
+                [op("Foo", [], [anc("zo")]), op("Bar", [("a", "String")], [sp("Foo")]), copy.deepcopy(uses_a)]))
+    # valid: operation spreads the fragment of its own name
+    out.append(("valid-op-spreads-namesake", None, [op("Foo", [("a", "String")], [sp("Foo")]), copy.deepcopy(uses_a)]))
+    # undefined variable in the spreading operation, the namesake operation defines it
+    out.append(("undefined-var-namesake-defines", 16,
+                [op("Foo", [("a", "String")], [anc("zo", [["s", ["var", "a"]]])]), op("Bar", [], [sp("Foo")]), copy.deepcopy(uses_a)]))
+    # unused fragment named like an operation
+    out.append(("unused-fragment-named-like-operation", 12, [op("Foo", [], [anc("zo")]), frag("Foo", "Query", [anc("zf")])]))
+    # variable named like a fragment: unused / undefined
+    out.append(("unused-var-named-like-fragment", 17,
+                [op("Q", [("Foo", "Int")], [sp("Foo")]), frag("Foo", "Query", [anc("zf")])]))
+    out.append(("undefined-var-named-like-fragment", 16,
+                [op("Q", [], [sp("v")]), frag("v", "Query", [anc("zf", [["i", ["var", "v"]]])])]))
+    # every namespace pair at once (valid): fragment = variable = alias = field = type = operation names
+    obj_sels = [sp("anchor"), sp("AnchorObj"), sp("id")]
+    out.append(("valid-all-namespaces", None,
+                [op("anchor", [("anchor", "String"), ("AnchorObj", "Int"), ("id", "ID")],
+                    [anc("anchor", [["s", ["var", "anchor"]], ["i", ["var", "AnchorObj"]], ["id", ["var", "id"]]], obj_sels)]),
+                 frag("anchor", "AnchorObj", [_leaf("id", "id"), _leaf("AnchorObj", "name")]),
+                 frag("AnchorObj", "AnchorObj", [{"k": "field", "alias": "anchor", "name": "self", "args": [], "dirs": [],
+                                                  "sels": [_leaf("id", "id")]}]),
+                 frag("id", "AnchorObj", [_leaf("count", "count")])]))
+    return out
+
+
 # --------------------------------------------------- labelled violators
 def violate(rng, schema, doc, label):
     """returns a copy of doc breaking rule `label` (1-based index into RULES)
     at one place, or None when not applicable"""
     d = copy.deepcopy(doc)
     ops, frs = ops_of(d), frags_of(d)
+    if label in (12, 16, 17) and rng.random() < 0.4:
+        forms = [f for f in namespace_collision_forms(rng) if f[1] == label]
+        taken = {x.get("name") for x in d["defs"]}
+        _n, _l, defs = rng.choice(forms)
+        if not any(x["name"] in taken for x in defs):
+            for o in ops:
+                if o["name"] is None:
+                    o["name"] = "ZAnon"
+            for x in defs:
+                d["defs"].insert(rng.randint(0, len(d["defs"])), x)
+            return d
     if label == 1:
         d["defs"].insert(rng.randint(0, len(d["defs"])), {"kind": "raw", "text": "scalar Zz9"})
         d["allow_type_system"] = True
@@ -1065,6 +1134,8 @@ def special_mutants(rng):
                 out.append({"defs": [{"kind": "op", "op": "query", "name": None, "vars": [], "dirs": [], "sels": [a, a2]}]})
     for _name, defs in variable_position_forms(rng):
         out.append({"defs": defs})
+    for _name, _label, defs in namespace_collision_forms(rng):
+        out.append({"defs": defs})
     # fragments spread inside their own nested same-key fields (the fields-vs-fragment
     # comparison of OverlappingFieldsCanBeMerged must be memoised to terminate)
     def sp(n):
@@ -1227,7 +1298,7 @@ def _map_vals(v, f):
 def rename(rng, doc):
     """consistent renaming of aliases, fragments and variables to fresh names"""
     d = copy.deepcopy(doc)
-    am, fm, vm = {}, {}, {}
+    am, fm, vm, om = {}, {}, {}, {}
 
     def fresh(m, n, p):
         if n not in m:
@@ -1237,6 +1308,8 @@ def rename(rng, doc):
     for f in frags_of(d):
         f["name"] = fresh(fm, f["name"], "Rf")
     for o in ops_of(d):
+        if o["name"] is not None:
+            o["name"] = fresh(om, o["name"], "ROp")
         for v in o["vars"]:
             v["name"] = fresh(vm, v["name"], "rv")
     for h in arg_holders(d):
